@@ -329,8 +329,8 @@ def gen_file3(rng, quick):
             "skip_first": skip_first, "skip_last": skip_last, "shared": bool(shared)}
 
 
-def gen_file2(rng, quick, parser):
-    system = rng.choice(["G", "G", "E"])
+def gen_file2(rng, quick, parser, system=None):
+    system = system or rng.choice(["G", "G", "E"])
     n = rng.randint(1, 8 if quick else 40)
     style = rng.choice([None, "0.dD", "0.dD", "d.de"])
     near = rng.random() < 0.5
@@ -373,10 +373,15 @@ class Impl:
         self.n += 1
         return os.path.join(self.dir, f"nav{self.n % 8}{ext}")
 
-    def parse(self, parser, text, ext):
+    def parse(self, parser, text, ext, unique=False):
         import pathlib
 
-        fn = self.path(ext)
+        if unique:  # a path no call has seen before
+            self.n += 1
+            os.makedirs(os.path.join(self.dir, f"u{self.n}"))
+            fn = os.path.join(self.dir, f"u{self.n}", f"nav0{ext}")
+        else:
+            fn = self.path(ext)
         with open(fn, "w", newline="") as f:
             f.write(text)
         try:
@@ -690,9 +695,62 @@ def run(ctx: Ctx):
             for _ in range(ctx.budget(120, 1200)):
                 one_file(ctx, impl, drv, gen_file2(rng, quick, parser), parser)
         dispatch_cases(ctx, impl, rng)
+        sysname_cases(ctx, drv, rng, ctx.budget(300, 3000))
+        from . import c12_adv
+
+        c12_adv.adversarial_cases(ctx, impl, drv, rng, ctx.budget(180, 1800), extra=True)
+        history_cases(ctx, impl, drv, rng, ctx.budget(40, 400), ctx.budget(8, 40))
     finally:
         impl.cleanup()
     ctx.traces = ctx.evaluations
+
+
+NAME_POOL = ["brdc0010.19n", "brdc0010.21l", "brdc0010.19g", "BRDC0010.19N", "brdc0010.19L", "x.rnx", "ABCD00NOR_R_20190010000_01D_GN.rnx",
+             "ABCD00NOR_R_20190010000_01D_EN.rnx", "ABCD00NOR_R_20190010000_01D_MN.rnx", "ABCD00NOR_R_20190010000_01D_gn.rnx",
+             "ABCD00NOR_R_20190010000_01D_GN.rnx.gz", "brdc0010.19n.gz", "brdc0010.19n.Z", "file", ".hidden", ".19n", "name.", "a.b.c", "a.b.l",
+             "..19n", "x.19n.", "a..n", "n", "ab.rnx", "abcde.rnx", "abcdef.rnx", "GN.rnx", "xGN.rnx", "a.rnx.n", "a.xrnxy", "a.19h", "a.19p", "a.19q",
+             "a.gz", "a.n.gz", "a.gz.n", "b.crx", "brdm0010.19p"]
+
+
+def sysname_cases(ctx, drv, rng, n):
+    """`_get_system_from_file_extension` of the two RINEX 2.x parser classes vs `systemOfName2` / `systemOfName212`"""
+    import pathlib
+    import string
+
+    from midgard.parsers.rinex2_nav import Rinex2NavParser
+    from midgard.parsers.rinex212_nav import Rinex212NavParser
+
+    names = list(NAME_POOL)
+    alphabet = string.ascii_letters + string.digits + "_"
+    while len(names) < n:
+        k = rng.random()
+        if k < 0.3:
+            names.append(rng.choice(NAME_POOL))
+        else:
+            parts = ["".join(rng.choice(alphabet) for _ in range(rng.randint(0, 9))) for _ in range(rng.randint(1, 4))]
+            if rng.random() < 0.75:
+                parts.append(rng.choice(["19n", "21l", "20g", "rnx", "gz", "RNX", "n", "N", "rnx.gz", "19l", "l", "G"]))
+            nm = ".".join(parts)
+            names.append(nm if nm.strip(".") else "a" + nm)
+    asks = []
+    for nm in names:
+        asks += [f"c12 sysname 2 {hexs(nm)}", f"c12 sysname 212 {hexs(nm)}"]
+    ans = drv.ask(asks)
+    for i, nm in enumerate(names):
+        for j, (which, cls) in enumerate((("2", Rinex2NavParser), ("212", Rinex212NavParser))):
+            case = {"sysname": which, "name": nm}
+            ctx.case(case)
+            try:
+                with warnings.catch_warnings():
+                    warnings.simplefilter("ignore")
+                    got = "=" + cls(pathlib.Path("/nonexistent-verif") / nm).system
+            except BaseException as e:  # noqa: BLE001
+                if isinstance(e, KeyboardInterrupt):
+                    raise
+                got = "RAISES"
+            ctx.count(f"sysname {which}: {got if got == 'RAISES' else 'system ' + got[1:] if got[1:] in 'GRE' else 'another letter'}")
+            if ans[2 * i + j] != got:
+                ctx.disagree(f"GNSS from the file name (rinex{which}_nav)", case, ans[2 * i + j], got)
 
 
 def dispatch_cases(ctx, impl, rng):
@@ -722,11 +780,258 @@ def dispatch_cases(ctx, impl, rng):
             ctx.violate(f"dispatch:raises:{type(e).__name__}", f"dispatch raised {type(e).__name__}: {e}", case)
 
 
+# ------------------------------------------------------------------------------------------
+# histories through the public dispatcher: parsers.parse_file("rinex_nav", path)
+#
+# The statement is about the file that is at the path *now*.  One process parses several paths, the content of a path
+# is replaced (another RINEX version, or another file of the same version) and parsed again: every call must return
+# what a fresh interpreter returns for the current content, whatever was parsed from that path (or any other) before.
+
+# (file name, GNSS the name stands for in RINEX 2, kinds of content the name admits)
+HIST_NAMES = [
+    ("brdc{k:03d}0.19n", "G", ("rinex2_nav", "rinex212_nav", "rinex3_nav")),
+    ("brdc{k:03d}0.19l", "E", ("rinex2_nav", "rinex212_nav", "rinex3_nav")),
+    ("VRF{k}00NOR_R_20190010000_01D_GN.rnx", "G", ("rinex212_nav", "rinex3_nav")),
+    ("VRF{k}00NOR_R_20190010000_01D_EN.rnx", "E", ("rinex212_nav", "rinex3_nav")),
+    ("VRF{k}00NOR_R_20190010000_01D_MN.rnx", None, ("rinex3_nav",)),
+]
+
+
+def canon_columns(cols):
+    """impl_columns → JSON-able (exact rationals as text)"""
+    return {k: [kind, [None if x is None else str(x) for x in vals]] for k, (kind, vals) in sorted(cols.items())}
+
+
+def dispatch_parse(path, as_str=False, via="parse_file"):
+    """the public entry points; → ("ok", parser) | ("raises", text)"""
+    import pathlib
+
+    from midgard import parsers
+
+    try:
+        with warnings.catch_warnings():
+            warnings.simplefilter("ignore")
+            arg = str(path) if as_str else pathlib.Path(path)
+            if via == "parse_file":
+                p = parsers.parse_file("rinex_nav", arg)
+            elif via == "parse_file_kw":
+                p = parsers.parse_file(parser_name="rinex_nav", file_path=arg)
+            else:  # the registered plugin function, then Parser.parse() as parse_file does
+                from midgard.parsers import rinex_nav
+
+                p = rinex_nav.get_rinex2_or_rinex3(pathlib.Path(path))
+                p.parse()
+        return "ok", p
+    except BaseException as e:  # noqa: BLE001  (log.fatal raises SystemExit)
+        if isinstance(e, KeyboardInterrupt):
+            raise
+        return "raises", f"{type(e).__name__}: {e}"
+
+
+def fresh_main(argv):
+    """worker of `fresh_interpreter`: one path, parsed by the dispatcher in an interpreter that has parsed nothing else"""
+    st, p = dispatch_parse(argv[0])
+    if st == "raises":
+        print(json.dumps({"status": "raises", "error": p}))
+    else:
+        print(json.dumps({"status": "ok", "parser": p.parser_name, "cols": canon_columns(impl_columns(p))}))
+
+
+def fresh_interpreter(paths):
+    """[{status, parser, cols}] — each path parsed by `parsers.parse_file("rinex_nav", path)` in its own new interpreter"""
+    import subprocess
+    import sys
+
+    code = ("import sys, warnings; warnings.filterwarnings('ignore'); sys.path[:0] = [%r, %r]; "
+            "from harness import c12; c12.fresh_main(sys.argv[1:])" % (str(common.REPO), str(common.VERIF)))
+    out = []
+    todo = list(paths)
+    while todo:
+        batch, todo = todo[:8], todo[8:]
+        procs = [subprocess.Popen([sys.executable, "-W", "ignore", "-c", code, str(p)], stdout=subprocess.PIPE, stderr=subprocess.DEVNULL,
+                                  text=True, env={**os.environ, "MIDGARD_REPO": str(common.REPO)}) for p in batch]
+        for pr in procs:
+            txt, _ = pr.communicate(timeout=300)
+            lines = [l for l in txt.splitlines() if l.startswith("{")]
+            out.append(json.loads(lines[-1]) if lines else {"status": "raises", "error": f"no answer (exit {pr.returncode})"})
+    return out
+
+
+def write_step(path, text, keep_mtime):
+    """replace the content of `path`; `keep_mtime`: the new file carries the time stamps of the old one (a file restored from
+    an archive, `cp -p`, a file system with coarse time stamps)"""
+    old = os.stat(path) if keep_mtime and os.path.exists(path) else None
+    with open(path, "w", newline="") as fh:
+        fh.write(text)
+    if old is not None:
+        os.utime(path, ns=(old.st_atime_ns, old.st_mtime_ns))
+
+
+def hist_ext(name, sysletter, kind):
+    """extension under which the concrete parser class reads the same text (RINEX 2: the extension carries the GNSS)"""
+    return os.path.splitext(name)[1] if sysletter is None or kind == "rinex3_nav" else (".19n" if sysletter == "G" else ".19l")
+
+
+class _Prefixed:
+    """the record oracle, reporting under history:… keys"""
+
+    def __init__(self, ctx):
+        self.ctx = ctx
+        self.failed = False
+
+    def violate(self, key, what, case):
+        self.failed = True
+        self.ctx.violate("history:" + key, "after earlier parses in the same process: " + what, case)
+
+
+def gen_history(rng, nhist):
+    """paths and steps of one history: [(name, sysletter, kinds)], [{"path": i, "kind": parser, …}]"""
+    npaths = rng.choice([1, 2, 2, 3])
+    picks = [rng.choice(HIST_NAMES) for _ in range(npaths)]
+    paths = [(name.format(k=nhist % 1000 * 4 + i) if "{k:03d}" in name else name.format(k=i), s, kinds) for i, (name, s, kinds) in enumerate(picks)]
+    steps = []
+    last = {}
+    for _ in range(rng.randint(3, 7)):
+        i = rng.randrange(npaths)
+        kinds = paths[i][2]
+        prev = last.get(i)
+        others = [k for k in kinds if k != prev]
+        kind = rng.choice(others) if others and (prev is None or rng.random() < 0.75) else prev
+        last[i] = kind
+        steps.append({"path": i, "kind": kind, "keep_mtime": rng.random() < 0.3, "as_str": rng.random() < 0.3,
+                      "via": rng.choice(["parse_file", "parse_file", "parse_file_kw", "plugin"])})
+    return paths, steps
+
+
+def history_cases(ctx, impl, drv, rng, n, n_fresh):
+    quick = not ctx.thorough
+    to_fresh = []  # (history so far, path, canonical in-process result)
+    for h in range(n):
+        paths, steps = gen_history(rng, h)
+        hdir = os.path.join(impl.dir, f"h{h}")
+        os.makedirs(hdir)
+        ctx.count(f"history: {len(paths)} path(s)")
+        done = []
+        current = {}  # path index → (kind, canonical result)
+        for st in steps:
+            name, sysletter, _ = paths[st["path"]]
+            kind = st["kind"]
+            f = gen_file3(rng, quick) if kind == "rinex3_nav" else gen_file2(rng, quick, kind, system=sysletter)
+            prev = current.get(st["path"])
+            step = {"name": name, "sys": sysletter, "parser": kind, "file": f["text"], "keep_mtime": st["keep_mtime"], "as_str": st["as_str"], "via": st["via"]}
+            done.append(step)
+            case = {"history": list(done)}
+            ctx.case({"history": [(s["name"], common.digest(s["file"])) for s in done]}, nontrivial=len(done) > 1)
+            ctx.count("history step: " + ("first content of the path" if prev is None else
+                                          f"{prev[0]} replaced by {kind}" if prev[0] != kind else f"{kind} replaced by another {kind} file"))
+            if st["keep_mtime"] and prev is not None:
+                ctx.count("history step: content replaced, time stamps kept")
+            ctx.count(f"history step via {st['via']}{' (str path)' if st['as_str'] else ''}")
+            path = os.path.join(hdir, name)
+            write_step(path, f["text"], st["keep_mtime"])
+            status, p = dispatch_parse(path, st["as_str"], st["via"])
+            if status == "raises":
+                ctx.violate(f"history:raises:{p.split(':')[0]}",
+                            f"parse_file('rinex_nav', {name}) raises {p} on a well-formed {kind} file (step {len(done)} of a history in one process)", case)
+                current[st["path"]] = (kind, None)
+                continue
+            if p.parser_name != kind:
+                ctx.violate("history:dispatch", f"step {len(done)}: the file at {name} is now a {kind} file (version {f['version']}), "
+                            f"the dispatcher used {p.parser_name}", case)
+            got = impl_columns(p)
+            # the generating records vs the returned columns (independent of any parser state)
+            pref = _Prefixed(ctx)
+            oracle(pref, case, f, p, kind)
+            # the concrete parser class on a path never used before
+            st2, p2, fn2 = impl.parse(kind, f["text"], hist_ext(name, sysletter, kind), unique=True)
+            os.remove(fn2)
+            if st2 == "ok":
+                d = diff_columns(impl_columns(p2), got)
+                if d:
+                    ctx.violate("history:differs-from-first-parse", f"step {len(done)}: parse_file('rinex_nav', {name}) differs from {kind} on the same "
+                                f"text at a path never used before: {d}", case)
+            # the compiled Lean model (a function of the current text only)
+            a = drv.ask1(f"c12 rinex_nav {hexs(name)} {hexs(f['text'])}")
+            if a in ("RAISES", "bad-op"):
+                ctx.disagree(f"history: parseNav (model raises, code returns)", case, a, "value")
+            else:
+                m = json.loads(a)
+                if m["parser"] != p.parser_name:
+                    ctx.disagree("history: parser chosen by the dispatcher (model parseNav vs code)", case, m["parser"], p.parser_name)
+                d = diff_columns(model_columns(json.dumps(m["cols"])), got)
+                if d:
+                    ctx.disagree(f"history: columns of parseNav vs parse_file('rinex_nav')", case, d, "")
+            current[st["path"]] = (kind, {"status": "ok", "parser": p.parser_name, "cols": canon_columns(got)})
+            if len(to_fresh) < n_fresh and prev is not None and rng.random() < 0.5:
+                to_fresh.append((case, path, f["text"], current[st["path"]][1]))
+                ctx.count("history step compared with a fresh interpreter")
+    # the same contents, each in an interpreter that has parsed nothing else
+    fdir = os.path.join(impl.dir, "fresh")
+    os.makedirs(fdir)
+    fpaths = []
+    for k, (case, path, text, _) in enumerate(to_fresh):
+        d = os.path.join(fdir, str(k))
+        os.makedirs(d)
+        fp = os.path.join(d, os.path.basename(path))
+        with open(fp, "w", newline="") as fh:
+            fh.write(text)
+        fpaths.append(fp)
+    for (case, path, text, mine), theirs in zip(to_fresh, fresh_interpreter(fpaths)):
+        if theirs != mine:
+            what = (theirs.get("error") if theirs["status"] != "ok" else
+                    f"parser {theirs['parser']} vs {mine['parser']}" if theirs["parser"] != mine["parser"] else
+                    next((f"column {k}" for k in theirs["cols"] if theirs["cols"][k] != mine["cols"].get(k)), "column names"))
+            ctx.violate("history:differs-from-fresh-interpreter", f"the last step of the history returns something else than a fresh interpreter "
+                        f"for the same file ({what})", case)
+
+
+def replay_history(impl, steps):
+    """re-run the steps in this (new) process: same names in a new directory"""
+    bad = 0
+    hdir = os.path.join(impl.dir, "h")
+    os.makedirs(hdir)
+    last = None
+    for k, st in enumerate(steps, 1):
+        path = os.path.join(hdir, st["name"])
+        write_step(path, st["file"], st.get("keep_mtime", False))
+        status, p = dispatch_parse(path, st.get("as_str", False), st.get("via", "parse_file"))
+        version = st["file"].split("\n", 1)[0].split()[0]
+        if status == "raises":
+            print(f"step {k}: {st['name']} now holds RINEX {version} ({st['parser']}): VIOLATION (replayed): raises {p}")
+            bad = 1
+            last = None
+            continue
+        sysletter = st.get("sys")
+        st2, p2, _ = impl.parse(st["parser"], st["file"], hist_ext(st["name"], sysletter, st["parser"]), unique=True)
+        d = diff_columns(impl_columns(p2), impl_columns(p)) if st2 == "ok" else None
+        print(f"step {k}: {st['name']} now holds RINEX {version} ({st['parser']}): dispatcher used {p.parser_name}, "
+              f"{len(p.data.get('time', []))} records; vs {st['parser']} on a new path: {d or 'equal'}")
+        if p.parser_name != st["parser"] or d:
+            print("VIOLATION (replayed)")
+            bad = 1
+        last = (path, {"status": "ok", "parser": p.parser_name, "cols": canon_columns(impl_columns(p))})
+    if last:
+        fd = os.path.join(impl.dir, "fresh")
+        os.makedirs(fd)
+        fp = os.path.join(fd, os.path.basename(last[0]))
+        with open(fp, "w", newline="") as fh:
+            fh.write(steps[-1]["file"])
+        theirs = fresh_interpreter([fp])[0]
+        print("last step vs a fresh interpreter:", "equal" if theirs == last[1] else "DIFFERENT")
+        if theirs != last[1]:
+            print("VIOLATION (replayed)")
+            bad = 1
+    return bad
+
+
 def replay(payload):
     c = payload.get("replay", payload)
     ctx = Ctx("C12", "quick", 0)
     impl = Impl()
     try:
+        if "history" in c:
+            print("key:", payload.get("key"), "|", payload.get("what"))
+            return replay_history(impl, c["history"])
         if "file" in c:
             st, p, _ = impl.parse(c["parser"], c["file"], c["ext"])
             print("key:", payload.get("key"), "|", payload.get("what"))
